@@ -59,6 +59,7 @@ const (
 	OpFSub
 	OpFMul
 	OpFDiv
+	OpFTrunc // round to integral, toward zero
 )
 
 var opNames = [...]string{
@@ -69,7 +70,7 @@ var opNames = [...]string{
 	OpSLt: "bvslt", OpSLe: "bvsle", OpBAnd: "and", OpBOr: "or", OpBNot: "not", OpIte: "ite", OpTbl: "tbl",
 	OpFLt: "fp.lt", OpFLe: "fp.leq", OpFEq: "fp.eq", OpFIsNaN: "fp.isNaN", OpFToSI: "fp.to_sbv", OpFToUI: "fp.to_ubv",
 	OpSIToF: "si_to_fp", OpUIToF: "ui_to_fp", OpFToF: "fp_to_fp", OpFAbs: "fp.abs", OpFNeg: "fp.neg",
-	OpFAdd: "fp.add", OpFSub: "fp.sub", OpFMul: "fp.mul", OpFDiv: "fp.div",
+	OpFAdd: "fp.add", OpFSub: "fp.sub", OpFMul: "fp.mul", OpFDiv: "fp.div", OpFTrunc: "fp.roundToIntegral",
 }
 
 // Term is an immutable expression node. w == 0 means sort Bool, otherwise a
@@ -964,7 +965,7 @@ func (p *smtPrinter) expr(t *Term) string {
 		s = fmt.Sprintf("((_ fp.to_sbv %d) RTZ (%s %s))", t.w, fpConv(t.a.w), p.expr(t.a))
 	case OpFToUI:
 		s = fmt.Sprintf("((_ fp.to_ubv %d) RTZ (%s %s))", t.w, fpConv(t.a.w), p.expr(t.a))
-	case OpSIToF, OpUIToF, OpFToF, OpFAbs, OpFNeg, OpFAdd, OpFSub, OpFMul, OpFDiv:
+	case OpSIToF, OpUIToF, OpFToF, OpFAbs, OpFNeg, OpFAdd, OpFSub, OpFMul, OpFDiv, OpFTrunc:
 		// results are FP values that must be turned back into bit patterns: introduce a fresh
 		// bit-vector constant constrained by to_fp equality (the standard SMT-LIB idiom).
 		nm := fmt.Sprintf("_fpb%d", t.id)
@@ -976,6 +977,8 @@ func (p *smtPrinter) expr(t *Term) string {
 			fe = fmt.Sprintf("((_ to_fp_unsigned %s) RNE %s)", fpEB(t.w), p.expr(t.a))
 		case OpFToF:
 			fe = fmt.Sprintf("(%s RNE (%s %s))", fpConv(t.w), fpConv(t.a.w), p.expr(t.a))
+		case OpFTrunc:
+			fe = fmt.Sprintf("(fp.roundToIntegral RTZ (%s %s))", fpConv(t.a.w), p.expr(t.a))
 		case OpFAbs, OpFNeg:
 			fe = fmt.Sprintf("(%s (%s %s))", opNames[t.op], fpConv(t.a.w), p.expr(t.a))
 		default:
